@@ -267,9 +267,13 @@ def stderrLoop (P : Params) (E : Ext) (n : Nat) (input : Bytes) : Out :=
 the results of `config.Stderr.Write` do not end it -/
 structure ReaderParams where
   endsOnlyOnReadError : Bool
+  /-- `logStderr` calls nothing on the client that could wait for `Start` to finish (it touches only the logger, the two
+  wait groups and `config.Stderr`): it reads the pipe from the moment it is started, also while `Start` still holds the
+  client lock waiting for the handshake line -/
+  readsFromStart : Bool
   deriving DecidableEq, Repr
 
-def ReaderParams.Good (R : ReaderParams) : Prop := R.endsOnlyOnReadError = true
+def ReaderParams.Good (R : ReaderParams) : Prop := R.endsOnlyOnReadError = true ∧ R.readsFromStart = true
 
 instance (R : ReaderParams) : Decidable R.Good := by unfold ReaderParams.Good; exact inferInstance
 
@@ -280,5 +284,9 @@ pipe buffer is full. -/
 def stderrTaken (R : ReaderParams) (sinkFails : Nat → Bool) : Nat → Nat → Nat
   | 0, _ => 0
   | lines+1, i => if !R.endsOnlyOnReadError && sinkFails i then 1 else 1 + stderrTaken R sinkFails lines (i + 1)
+
+/-- lines of stderr written BEFORE the handshake line that the host takes while `Start` is still waiting for that line
+(a reader that first waits for the client lock takes none: the plugin blocks on its stderr and never gets to print the line) -/
+def stderrTakenDuringStart (R : ReaderParams) (lines : Nat) : Nat := if R.readsFromStart then lines else 0
 
 end GoPlugin.LogLine
